@@ -28,6 +28,9 @@ The function library (what `fn_sem` is instantiated with in the correspondence c
   null   ValueFunction     no return: Ok null
   res    ResourceFunction  object widgets/ns1/<inputs.name>: present -> GET, Ok {got: =inputs};
                            absent -> GET, POST, Retry 11
+  resd   ResourceFunction  object dwidgets/ns1/<inputs.name> whose target holds a list compared as a set
+                           (x-koreo-compare-as-set); a present object has DRIFTED in that list:
+                           present -> GET, PATCH, Retry 13; absent -> GET, POST, Retry 11
 """
 from __future__ import annotations
 
@@ -47,9 +50,10 @@ OWNER = ("ns1", {"apiVersion": "v1", "kind": "Parent", "name": "parent", "uid": 
                  "blockOwnerDeletion": True, "controller": False})
 NS = "ns1"
 CLS_WORDS = ["ok", "skip", "depskip", "retry7", "retry30", "permfail", "err"]
-FN_NAMES = ["echo", "bycls", "null", "res", "resl"]
-RES_FNS = ("res", "resl")
+FN_NAMES = ["echo", "bycls", "null", "res", "resl", "resd"]
+RES_FNS = ("res", "resl", "resd")
 RES_CREATE_DELAY = 11
+RES_PATCH_DELAY = 13
 
 FUNCTIONS = {
     "echo": ("vf", {"return": {"got": "=inputs"}}),
@@ -79,6 +83,17 @@ FUNCTIONS["resl"] = ("rf", {
     "return": {"got": "=inputs"}})
 
 
+# a ResourceFunction whose present object has drifted inside a list compared as a set: one pass reads, compares
+# (validate.py's compare-as-set branch reports the difference) and patches  (added for seeded C02-17)
+FUNCTIONS["resd"] = ("rf", {
+    "apiConfig": {"apiVersion": "example.dev/v1", "kind": "Dwidget", "plural": "dwidgets",
+                  "name": "=inputs.name", "namespace": NS, "owned": False},
+    "resource": {"spec": {"tag": "static", "x-koreo-compare-as-set": ["tags"], "tags": ["a", "b"]}},
+    "create": {"delay": RES_CREATE_DELAY},
+    "update": {"patch": {"delay": RES_PATCH_DELAY}},
+    "return": {"got": "=inputs"}})
+
+
 _gadget_counter = itertools.count()
 
 
@@ -93,13 +108,18 @@ def stored_gadget(name, kind="Gadget"):
             "spec": {"tag": "static"}}
 
 
+def stored_dwidget(name):
+    return {"apiVersion": "example.dev/v1", "kind": "Dwidget", "metadata": {"name": name, "namespace": NS},
+            "spec": {"tag": "static", "tags": ["c", "a"]}}
+
+
 def stored_widget(name):
     return {"apiVersion": "example.dev/v1", "kind": "Widget", "metadata": {"name": name, "namespace": NS},
             "spec": {"tag": "static"}}
 
 
 def res_rid(name, fn="res"):
-    kind = "Widget" if fn == "res" else "Gadget"
+    kind = {"res": "Widget", "resd": "Dwidget"}.get(fn, "Gadget")
     return {"apiVersion": "example.dev/v1", "kind": kind, "plural": kind.lower() + "s", "name": name, "readonly": False,
             "namespace": NS, "resourceFunction": fn}
 
@@ -597,6 +617,7 @@ def run(sc, lat=None, virtual=True):
         for n in sc.get("existing", []):
             cluster.put(stored_widget(n), plural="widgets")
             cluster.put(stored_gadget(n, real.gadget_kind), plural=real.gadget_kind.lower() + "s")
+            cluster.put(stored_dwidget(n), plural="dwidgets")
         before = cluster.snapshot()
         rec = Recorder(real)
         entry = rec.install()
@@ -663,6 +684,8 @@ def fn_sim(name, inputs, existing):
         n = inputs.get("name") if isinstance(inputs, dict) else None
         if not isinstance(n, str):
             return ("PermFail", None), None, []
+        if n in existing and name == "resd":
+            return ("Retry", RES_PATCH_DELAY), res_rid(n, name), [["GET", n], ["PATCH", n]]
         if n in existing:
             return ("Ok", {"got": copy.deepcopy(inputs)}), res_rid(n, name), [["GET", n]]
         return ("Retry", RES_CREATE_DELAY), res_rid(n, name), [["GET", n], ["POST", n]]
